@@ -12,6 +12,7 @@ RULES = {
     'R-ORDERED': order_rules.r_ordered,
     'R-LEVELS': order_rules.r_levels,
     'R-EXPNUM': order_rules.r_expnum,
+    'R-NAV': order_rules.r_nav,
     'R-OPTKEY': opt_rules.r_optkey,
     'DECOR': opt_rules.r_decor,
     'R-SIBLING': opt_rules.r_sibling,
@@ -283,13 +284,14 @@ PROPS = {
                        'yield; label generators are per call. Does NOT decide: additivity as an equation.',
     },
     'C19': {
-        'rules': ['R-ORDERED', 'R-LEVELS', 'R-EXPNUM'],
+        'rules': ['R-ORDERED', 'R-LEVELS', 'R-EXPNUM', 'R-NAV'],
         'filter': {'R-ORDERED': either(rule('R-ORDERED/DEF'), site('trees.'))},
         'explanation': 'Decides only: children() sorts by leftmost token, terminals() by number; preorder/postorder yield '
                        'the node once before/after recursing over the ordered children; siblings use the ordered list; '
                        'levels are recorded for constituents only and aggregated with max; export numbers are a counter '
-                       'from 500 over ascending levels, left to right. Does NOT decide: LCA, dominance, sibling '
-                       'arithmetic.',
+                       'from 500 over ascending levels, left to right; right/left sibling return the element at offset '
+                       '+1/-1 (slice start and index arithmetic); dominance() yields the node and then every parent. '
+                       'Does NOT decide: the least common ancestor, the level arithmetic.',
     },
     'C20': {
         'rules': ['DECOR', 'R-OPTKEY', 'R-LABELFIELDS', 'R-LABELSPLIT'],
